@@ -20,7 +20,10 @@ RULE = ('histories over {save_spike_clusters(random reassignment), save_metadata
         '(1, 01, 1.0, 1e0), fractional and text ids; also files carrying a field that save_metadata '
         'writes, as .csv and as .tsv, incl. cluster_<field>.tsv itself), save_spikes_subset_waveforms(unit factor 1, 2, '
         '0.5), close, reload} on generated datasets: assignments in spike_clusters.npy / spikes.clusters.npy / a labelled '
-        'spikes.clusters.<label>.npy / no file (created by the first load); with and without raw data; directories that '
+        'spikes.clusters.<label>.npy / no file (created by the first load); with and without raw data; recordings of ONE '
+        'trace chunk and recordings spanning SEVERAL (a sample rate in params.py so low that 600 s of it is shorter than the '
+        'recording, down to one sample per chunk, and / or raw data split over 2..3 files: the export walks the chunks, the '
+        'selected spikes lie in any of them, the templates have different best-channel rows); directories that '
         'start with KiloSort\'s own cluster_*.tsv files and / or with the subset store of an earlier session. After every '
         'reload the loaded model is compared with the Lean disk model (metadata in the visiting order of the real '
         'directory, ids with their key type, spike templates / times, subset store PRESENCE, ids, channel rows and '
@@ -399,7 +402,19 @@ def tally(rep, case, impl_res, ans):
     rep.count('unit_factor:%s' % case.get('factor', 1.))
     rep.count('spike_times_stored_as:%s' % ('seconds (spikes.times.npy)' if case['spec'].get('times_in_seconds') else 'samples (spike_times.npy)'))
     rep.count('assignments_in:%s' % case.get('layout', 'ks'))
-    rep.count('raw_data:%s' % ('present' if case['spec'].get('raw') else 'absent'))
+    rep.count('raw_data:%s' % ('present, %d file(s)' % len(case['spec']['raw']) if case['spec'].get('raw') else 'absent'))
+    if 'ok' in impl_res and impl_res['ok']['init']['has_raw']:
+        chunks = impl_res['ok']['init']['chunks']
+        rep.count('trace_chunks:%s' % (len(chunks) if len(chunks) < 3 else '3..20' if len(chunks) <= 20 else
+                                       '>20 (the spike selector keeps 20 of them)'))
+        ss = case['spec']['spike_samples']
+        pre = impl_res['ok']['init'].get('pre_sel')
+        for sel in impl_res['ok']['sels'] + ([pre] if pre else []):
+            # where the exported spikes lie: from the second chunk with spikes on, the position of a spike within
+            # its chunk is no longer its row in the selection
+            per = [[j for j, x in enumerate(sel) if a <= ss[x] < b] for a, b in chunks]
+            per = [c for c in per if c]
+            rep.count('export:selected_spikes_in_%s' % ('one chunk' if len(per) <= 1 else 'several chunks'))
     rep.count('starts_with:%s' % ('+'.join((['subset store of an earlier session'] if case.get('pre_export') else []) +
                                              (['metadata files'] if case['spec'].get('text_files') else [])) or 'neither store nor metadata files'))
     if 'ok' in impl_res and 'ok' in ans:
@@ -412,7 +427,7 @@ def tally(rep, case, impl_res, ans):
                 continue
             v, m = impl_res['ok']['views'][n], ans['ok']['views'][n]
             n += 1
-            rep.count('reload:store_%s' % ('queried%s' % ((' (single spike)' if len(v['store']['ids']) == 1 else '') + (' (single column)' if len(v['store']['channels'][0]) == 1 else '')) if v.get('store') else 'absent'))
+            rep.count('reload:store_%s' % ('queried%s' % ((' (single spike)' if len(v['store']['ids']) == 1 else ' (no spike: none of the chunks the selector kept holds one)' if not v['store']['ids'] else '') + (' (single column)' if v['store']['channels'] and len(v['store']['channels'][0]) == 1 else '')) if v.get('store') else 'absent'))
             if exported:
                 rep.count('reload:after_an_export(store presence judged)')
             nf = len([f for f, vals in m['abs_fields'] if vals])
@@ -586,6 +601,20 @@ def gen(tier, rng):
             # a narrow channel neighbourhood (params.py): the subset store then holds only the first 2..3 channels of
             # each template, so WHICH channels are stored matters
             spec['params_extra'] = dict(spec.get('params_extra') or {}, n_closest_channels=rng.pick([1, 2, 3]))
+        if not no_raw and i % 3 != 0:
+            # a recording that spans SEVERAL trace chunks (the export of the subset goes chunk by chunk, traces.py
+            # iter_waveforms): chunks last 600 s, so either the sample rate of params.py is so low that a chunk is
+            # shorter than the recording (down to ONE sample per chunk), or the raw data come in several files (a
+            # chunk never crosses a file boundary), or both
+            rows = spec['raw'][0]
+            how = rng.pick(['rate', 'rate', 'files', 'both'])
+            if how in ('rate', 'both'):
+                k = rng.randrange(1, max(2, len(rows) // 2))
+                spec['sample_rate'] = k / 600.
+                assert int(round(600. * spec['sample_rate'])) == k
+            if how in ('files', 'both'):
+                cuts = sorted(rng.sample(range(1, len(rows)), rng.randrange(1, 3)))
+                spec['raw'] = [rows[a:b] for a, b in zip([0] + cuts, cuts + [len(rows)])]
         if i % 5 == 3:
             # spike times given in seconds only (spikes.times.npy next to KiloSort-named files): the samples every
             # reload shows are the ones recovered by rounding
